@@ -77,9 +77,8 @@ Proof.
   - rewrite H2. apply Z.eqb_refl.
 Qed.
 
-(* what the DFS enumerates: chains in which every net picked from dst_nets was
-   not yet on the current path.  (The read port appended after a memory write
-   is NOT tested -- exactly as in the code.) *)
+(* what the DFS enumerates: chains in which every net picked from dst_nets, and
+   every read port followed after a memory write, was not yet on the current path *)
 Inductive dchain : list net -> wid -> list net -> wid -> Prop :=
 | dc_nil cur w : dchain cur w [] w
 | dc_net cur w n p w' :
@@ -87,7 +86,7 @@ Inductive dchain : list net -> wid -> list net -> wid -> Prop :=
     dchain (cur ++ [n]) (ndest n) p w' -> dchain cur w (n :: p) w'
 | dc_mem cur w n m rn p w' :
     In n (nets nl) -> In w (nargs n) -> nop n = OpMemWr m -> ~ In n cur ->
-    In rn (nets nl) -> nop rn = OpMemRd m ->
+    In rn (nets nl) -> nop rn = OpMemRd m -> ~ In rn cur ->
     dchain (cur ++ [n; rn]) (ndest rn) p w' -> dchain cur w (n :: rn :: p) w'.
 
 Lemma has_dest_memwr n : has_dest n = true <-> forall m, nop n <> OpMemWr m.
@@ -110,6 +109,7 @@ Proof.
                    apply dc_net; auto; unfold has_dest; rewrite Eop; reflexivity]).
     apply in_flat_map in H. destruct H as [rn [Hrn H]].
     apply readports_iff in Hrn. destruct Hrn as [Hrn Hop].
+    destruct (net_in rn cur) eqn:Ein2; [destruct H|]. apply net_in_false in Ein2.
     apply IH in H. destruct H as [q [-> Hq]]. exists (n :: rn :: q).
     split; [rewrite <- app_assoc; reflexivity | eapply dc_mem; eauto].
 Qed.
@@ -119,7 +119,7 @@ Lemma dfs_complete dst cur w q :
   In (cur ++ q) (dfs nl dst fuel w cur).
 Proof.
   intro H. induction H as [cur w | cur w n p w' Hn Hw Hd Hc _ IH
-                           | cur w n m rn p w' Hn Hw Hop Hc Hrn Hrop _ IH];
+                           | cur w n m rn p w' Hn Hw Hop Hc Hrn Hrop Hrc _ IH];
     intros [|f] Hf; try (cbn [length] in Hf; lia); cbn [dfs].
   - apply in_or_app. left. rewrite Z.eqb_refl, app_nil_r. left. reflexivity.
   - apply in_or_app. right. apply in_flat_map. exists n. split; [apply readers_iff; auto|].
@@ -129,7 +129,7 @@ Proof.
     unfold has_dest in Hd. destruct (nop n); try discriminate; apply IH; lia.
   - apply in_or_app. right. apply in_flat_map. exists n. split; [apply readers_iff; auto|].
     apply net_in_false in Hc. rewrite Hc, Hop. apply in_flat_map. exists rn.
-    split; [apply readports_iff; auto|].
+    split; [apply readports_iff; auto|]. apply net_in_false in Hrc. rewrite Hrc.
     assert (E : cur ++ n :: rn :: p = (cur ++ [n; rn]) ++ p) by (rewrite <- app_assoc; reflexivity).
     rewrite E. cbn [length] in Hf. apply IH. lia.
 Qed.
@@ -153,21 +153,26 @@ Proof.
     + apply IH. rewrite <- app_assoc. exact Hnd.
   - eapply dc_mem; eauto.
     + apply NoDup_remove_2 in Hnd. intro Hc. apply Hnd. apply in_or_app. left. exact Hc.
+    + replace (cur ++ n :: rn :: p) with ((cur ++ [n]) ++ rn :: p) in Hnd
+        by (rewrite <- app_assoc; reflexivity).
+      apply NoDup_remove_2 in Hnd. intro Hc. apply Hnd. apply in_or_app. left.
+      apply in_or_app. left. exact Hc.
     + apply IH. rewrite <- app_assoc. exact Hnd.
 Qed.
 
 Lemma dchain_nodup cur w q dst :
-  dchain cur w q dst -> NoDup cur -> (forall n, In n q -> has_dest n = true) -> NoDup (cur ++ q).
+  dchain cur w q dst -> NoDup cur -> NoDup (cur ++ q).
 Proof.
   intro H. induction H as [cur w | cur w n p w' Hn Hw Hd Hc _ IH
-                           | cur w n m rn p w' Hn Hw Hop Hc Hrn Hrop _ IH]; intros Hnd Hall.
+                           | cur w n m rn p w' Hn Hw Hop Hc Hrn Hrop Hrc _ IH]; intros Hnd.
   - rewrite app_nil_r. exact Hnd.
   - replace (cur ++ n :: p) with ((cur ++ [n]) ++ p) by (rewrite <- app_assoc; reflexivity).
-    apply IH.
-    + apply NoDup_app_snoc; auto.
-    + intros x Hx. apply Hall. right. exact Hx.
-  - exfalso. specialize (Hall n (or_introl eq_refl)). unfold has_dest in Hall.
-    rewrite Hop in Hall. discriminate.
+    apply IH. apply NoDup_app_snoc; auto.
+  - replace (cur ++ n :: rn :: p) with ((cur ++ [n; rn]) ++ p) by (rewrite <- app_assoc; reflexivity).
+    apply IH. replace (cur ++ [n; rn]) with ((cur ++ [n]) ++ [rn]) by (rewrite <- app_assoc; reflexivity).
+    apply NoDup_app_snoc; [apply NoDup_app_snoc; auto|].
+    intro H. apply in_app_or in H. destruct H as [H|[H|[]]]; [contradiction|].
+    subst rn. congruence.
 Qed.
 
 Lemma chain_in_nets w q dst : chain nl w q dst -> forall n, In n q -> In n (nets nl).
@@ -271,16 +276,14 @@ Proof.
   intro H. apply suffix_filter_in in H. apply (proj1 (sort_desc_in _ _)) in H. exact H.
 Qed.
 
-(* every returned path is a non-empty net path from src to dst; it repeats no
-   net unless it passes through a memory write (see paths_memloop_refuted) *)
+(* every returned path is a non-empty net path from src to dst that repeats no net *)
 Theorem paths_sound src dst p :
-  In p (paths nl src dst) ->
-  p <> [] /\ chain nl src p dst /\ ((forall n, In n p -> has_dest n = true) -> NoDup p).
+  In p (paths nl src dst) -> p <> [] /\ chain nl src p dst /\ NoDup p.
 Proof.
   intro H. apply paths_in_raw in H. apply (proj1 (paths_raw_in _ _ _)) in H. destruct H as [Hne H].
   apply dfs_sound in H. destruct H as [q [E Hq]]. cbn [app] in E. subst q.
   split; [exact Hne|]. split; [eapply dchain_chain; eauto|].
-  intro Hall. apply (dchain_nodup _ _ _ _ Hq (NoDup_nil _) Hall).
+  apply (dchain_nodup _ _ _ _ Hq (NoDup_nil _)).
 Qed.
 
 (* ---------- completeness ---------- *)
@@ -397,17 +400,19 @@ Proof.
   apply existsb_exists. exists q. split; assumption.
 Qed.
 
-Lemma chain_tail w l1 n p2 dst :
-  chain nl w (l1 ++ n :: p2) dst -> (forall x, In x (l1 ++ [n]) -> has_dest x = true) ->
-  chain nl (ndest n) p2 dst.
+Lemma chain_tail w q dst : chain nl w q dst ->
+  forall l1 n p2, q = l1 ++ n :: p2 -> has_dest n = true -> chain nl (ndest n) p2 dst.
 Proof.
-  revert w. induction l1 as [|x l1 IH]; intros w Hc Hall; cbn [app] in Hc.
-  - inversion Hc as [| w0 n0 p0 w0' Hn Hw Hd Hrest | w0 n0 m rn p0 w0' Hn Hw Hop]; subst.
-    + exact Hrest.
-    + specialize (Hall n (or_introl eq_refl)). unfold has_dest in Hall. rewrite Hop in Hall. discriminate.
-  - inversion Hc as [| w0 n0 p0 w0' Hn Hw Hd Hrest | w0 n0 m rn p0 w0' Hn Hw Hop]; subst.
-    + apply (IH _ Hrest). intros y Hy. apply Hall. right. exact Hy.
-    + specialize (Hall x (or_introl eq_refl)). unfold has_dest in Hall. rewrite Hop in Hall. discriminate.
+  intro H. induction H as [w | w n0 p w' Hn Hw Hd Hrest IH | w n0 m rn p w' Hn Hw Hop Hrn Hrop Hrest IH];
+    intros l1 n p2 E Hdn.
+  - destruct l1; discriminate.
+  - destruct l1 as [|x l1]; cbn [app] in E; injection E as E1 E2.
+    + subst. exact Hrest.
+    + subst. eapply IH; eauto.
+  - destruct l1 as [|x [|y l1]]; cbn [app] in E.
+    + injection E as E1 E2. subst. unfold has_dest in Hdn. rewrite Hop in Hdn. discriminate.
+    + injection E as E1 E2 E3. subst. exact Hrest.
+    + injection E as E1 E2 E3. subst. eapply IH; eauto.
 Qed.
 
 Lemma chain_nil_eq w dst : chain nl w [] dst -> w = dst.
@@ -439,25 +444,23 @@ Definition single_driver : Prop :=
   forall n1 n2, In n1 (nets nl) -> In n2 (nets nl) -> has_dest n1 = true -> has_dest n2 = true ->
                 ndest n1 = ndest n2 -> n1 = n2.
 
-(* Away from memory writes, every returned path is a SIMPLE path: it repeats no
-   net and no wire, and (src <> dst) never comes back to src -- this is what the
-   suffix filter is for, and it does remove every such path. *)
+(* SOUNDNESS, full: every returned path is a SIMPLE path: it repeats no net and
+   no wire, and (src <> dst) never comes back to src -- this is what the suffix
+   filter is for, and it does remove every such path. *)
 Theorem paths_sound_simple src dst p :
-  single_driver -> In p (paths nl src dst) -> (forall n, In n p -> has_dest n = true) ->
-  simple_path nl src p dst.
+  single_driver -> In p (paths nl src dst) -> simple_path nl src p dst.
 Proof.
-  intros Hsd Hin Hall. destruct (paths_sound src dst p Hin) as [Hne [Hc Hnd]].
-  specialize (Hnd Hall).
-  assert (Hv : visits p = map ndest p). { unfold visits. rewrite filter_all by exact Hall. reflexivity. }
-  split; [exact Hne|]. split; [exact Hc|]. split; [exact Hnd|]. rewrite Hv. split.
-  - apply NoDup_map_inj; [exact Hnd|]. intros x y Hx Hy E.
+  intros Hsd Hin. destruct (paths_sound src dst p Hin) as [Hne [Hc Hnd]].
+  split; [exact Hne|]. split; [exact Hc|]. split; [exact Hnd|]. split.
+  - unfold visits. apply NoDup_map_inj; [apply NoDup_filter; exact Hnd|].
+    intros x y Hx Hy E. apply filter_In in Hx. apply filter_In in Hy.
+    destruct Hx as [Hx Hdx]. destruct Hy as [Hy Hdy].
     apply Hsd; auto; eapply chain_in_nets; eauto.
-  - intros Hneq Hsrc. apply in_map_iff in Hsrc. destruct Hsrc as [n [En Hn]].
+  - intros Hneq Hsrc. unfold visits in Hsrc. apply in_map_iff in Hsrc. destruct Hsrc as [n [En Hn]].
+    apply filter_In in Hn. destruct Hn as [Hn Hdn].
     apply in_split in Hn. destruct Hn as [l1 [p2 Ep]].
     assert (Hc2 : chain nl src p2 dst).
-    { rewrite <- En. apply chain_tail with (w := src) (l1 := l1); [rewrite <- Ep; exact Hc|].
-      intros x Hx. apply Hall. rewrite Ep. apply in_app_or in Hx. apply in_or_app.
-      destruct Hx as [Hx|[<-|[]]]; [left; exact Hx | right; left; reflexivity]. }
+    { rewrite <- En. eapply chain_tail; eauto. }
     assert (Hne2 : p2 <> []). { intro E. subst p2. apply chain_nil_eq in Hc2. contradiction. }
     assert (Hnd2 : NoDup p2).
     { rewrite Ep in Hnd. apply NoDup_app_r in Hnd. inversion Hnd; assumption. }
@@ -467,19 +470,14 @@ Proof.
     + apply (proj2 (sort_desc_in _ _)). exact Hraw.
     + rewrite Ep, app_length. cbn [length]. lia.
     + rewrite Ep. replace (l1 ++ n :: p2) with ((l1 ++ [n]) ++ p2) by (rewrite <- app_assoc; reflexivity).
-      apply loops_into_intro; [|exact En]. apply Hall. rewrite Ep. apply in_or_app. right. left. reflexivity.
+      apply loops_into_intro; assumption.
 Qed.
 
-(* exact characterisation away from memory writes *)
+(* exact characterisation: returned set = set of simple paths *)
 Theorem paths_exact src dst p :
-  single_driver -> (forall n, In n (nets nl) -> has_dest n = true) ->
-  (In p (paths nl src dst) <-> simple_path nl src p dst).
+  single_driver -> (In p (paths nl src dst) <-> simple_path nl src p dst).
 Proof.
-  intros Hsd Hall. split.
-  - intro Hin. apply paths_sound_simple; auto.
-    intros n Hn. apply Hall. destruct (paths_sound src dst p Hin) as [_ [Hc _]].
-    eapply chain_in_nets; eauto.
-  - apply paths_complete.
+  intros Hsd. split; [apply paths_sound_simple; exact Hsd | apply paths_complete].
 Qed.
 
 End PP.
@@ -507,7 +505,7 @@ Lemma f18_now_complete : In f18_path (paths f18_nl 1 4) /\ length (paths f18_nl 
 Proof. vm_compute. split; [left; reflexivity | reflexivity]. Qed.
 
 (* memory write -> read loop: i -> addr; rd = m[addr]; m[wa] <<= rd + 1 (truncated); o <<= ~rd.
-   paths(i, o) contains a path in which the read net occurs twice *)
+   paths(i, o) used to contain a path in which the read net occurs twice *)
 Definition memloop_nl : netlist :=
   {| wires := [ mkWire 1 1 KInput; mkWire 2 1 KInput; mkWire 3 1 KWire; mkWire 4 1 KWire;
                 mkWire 5 1 (KConst 1); mkWire 6 1 KWire; mkWire 7 1 KWire; mkWire 8 1 KOutput;
@@ -519,12 +517,15 @@ Definition memloop_path : list net :=
   [ mkNet OpW [1] 3; mkNet (OpMemRd 0) [3] 4; mkNet OpXor [4; 5] 6; mkNet (OpMemWr 0) [2; 6; 9] 0;
     mkNet (OpMemRd 0) [3] 4; mkNet OpNot [4] 7; mkNet OpW [7] 8 ].
 
-Theorem paths_memloop_refuted :
-  exists nl src dst p, wfb nl = true /\ In p (paths nl src dst) /\ ~ NoDup p.
+(* the read-port defect is fixed in the code (and in the model): only the simple
+   path is returned, and the formerly returned path with the read net twice is not *)
+Lemma memloop_now_sound :
+  paths memloop_nl 1 8 = [ [ mkNet OpW [1] 3; mkNet (OpMemRd 0) [3] 4; mkNet OpNot [4] 7; mkNet OpW [7] 8 ] ]
+  /\ ~ In memloop_path (paths memloop_nl 1 8) /\ ~ NoDup memloop_path /\ wfb memloop_nl = true.
 Proof.
-  exists memloop_nl, 1, 8, memloop_path. split; [vm_compute; reflexivity|]. split.
-  - vm_compute. left. reflexivity.
-  - intro H. unfold memloop_path in H.
-    inversion H as [|x l _ H1]; subst. inversion H1 as [|x l Hin _]; subst.
-    apply Hin. cbn [In]. tauto.
+  split; [vm_compute; reflexivity|]. split; [vm_compute; intuition discriminate|].
+  split; [|vm_compute; reflexivity].
+  intro H. unfold memloop_path in H.
+  inversion H as [|x l _ H1]; subst. inversion H1 as [|x l Hin _]; subst.
+  apply Hin. cbn [In]. tauto.
 Qed.
